@@ -43,7 +43,23 @@ void h_add_calibration(void)
     }
     ghost_err_reset();
 
-    rc = _vnacal_add_calibration_common("h", vcp, calp, name);
+    /*
+     * The name may be the replaced calibration's OWN name string
+     * (vnacal_add_calibration(vcp, vnacal_get_name(vcp, ci), vnp) is a natural
+     * way to re-calibrate under the same name): it must be copied before the
+     * old calibration - and that string with it - is freed.
+     */
+    {
+	IN(bool, own_name);
+	const char *nm = name;
+
+	if (own_name && found >= 0) {
+	    nm = vnacal_get_name(vcp, found);
+	    CHECK(nm != NULL && nm[0] == new_name, "get_name returns the stored name");
+	    REACH("add called with the replaced calibration's own name string");
+	}
+	rc = _vnacal_add_calibration_common("h", vcp, calp, nm);
+    }
 
     cal_view_of(vcp, &post);
     REACH("add_calibration returned");
